@@ -144,6 +144,7 @@ CONFIGS = {
     'thorough': [{'retry': 30, 'hold': 180, 'idle_hold': 30}, {'retry': 10, 'hold': 90, 'idle_hold': 5},
                  {'retry': 40, 'hold': 9, 'idle_hold': 30}, {'retry': 30, 'hold': 0, 'idle_hold': 30}],
 }
+FROM_EST = {'quick': 4, 'thorough': 6}
 DEPTH = {'quick': 6, 'thorough': 8}
 
 
@@ -157,6 +158,8 @@ def run(tier, seed):
     for cfg in CONFIGS[tier]:
         explore.bfs(h, cfg, DEPTH[tier], col, seed=seed, result=res, merge_all=(tier == 'thorough'),
                     run_state_checks=True)
+        explore.bfs(h, cfg, FROM_EST[tier], col, seed=seed, result=res, merge_all=(tier == 'thorough'),
+                    run_state_checks=True, start=(('TICK', 0), ('CONN_OK', 0), ('RX', 0, 'OPEN_OK'), ('RX', 0, 'KA')))
     explore.close_pool()
     n_new, n_known, summary = col.finish('e1-state+continuation')
     cov = {
@@ -164,7 +167,7 @@ def run(tier, seed):
         'traces_validated_against_impl': res.transitions + res.state_checks * len(h.policies),
         'samples': res.samples, 'max_depth': res.max_depth, 'closed': res.closed,
         'depth_cap_hit': res.depth_cap_hit, 'distinct_observation_classes': len(res.obs_classes),
-        'merges': res.merges, 'merges_checked': res.merges_checked, 'diverged_transitions': res.diverged,
+        'merges': res.merges, 'merges_checked': res.merges_checked, 'merges_refuted_and_undone': res.refinements[:5], 'n_merges_refuted': len(res.refinements), 'diverged_transitions': res.diverged,
         'continuations_run': res.state_checks * len(h.policies), 'policies': ['P%d' % j for j in h.policies],
         'configs': CONFIGS[tier], 'alphabet': list(h.messages), 'violation_keys': summary,
         'explanation': 'from every state reached by the adversarial BFS (depth %d, operator never stops) the environment '
